@@ -13,6 +13,7 @@ import (
 	"strings"
 	"sync"
 	"testing"
+	"unicode/utf8"
 
 	"github.com/pdok/texel/tms20"
 	"pgregory.net/rapid"
@@ -35,10 +36,10 @@ type DocCase struct {
 
 var specC16 = report.Spec{Property: "C16", Check: "C16",
 	Rule: "the 14 built-in documents and the repository's test document, mutated 0-4 deep by a structure aware mutator over the parsed JSON tree (delete key, drop array element, replace by a value of another JSON type, replace a number by one of {0,-1,0.5,1.5,2^53,-2^53,2,256}, replace a string, " +
-		"swap the crs for each of its three forms (uri string/object, wkt with id, referenceSystem), re-spell a crs uri as object or string, extend an array, duplicate a tile matrix id), half of the mutations aimed at tile matrix fields, one third of the multi-mutation cases focused on one sub tree (a tile matrix, a variableMatrixWidths entry, the bounding box, the crs). Oracle: (a) decoding never panics; (b) if decoding succeeds: encoding succeeds, decode(encode(x)) deep-equals x and encode(decode(encode(x))) is byte-identical to encode(x); " +
+		"swap the crs for each of its three forms (uri string/object, wkt with id, referenceSystem), re-spell a crs uri as object or string, extend an array, duplicate a tile matrix id), half of the mutations aimed at tile matrix fields, one third of the multi-mutation cases focused on one sub tree (a tile matrix, a variableMatrixWidths entry, the bounding box, the crs). Oracle: (a) decoding never panics; (b) if decoding succeeds: encoding succeeds, decode(encode(x)) equals x (field by field, a nil and an empty list being the same value) and behaves like x through the API (MatrixBoundingBox and FromNative per tile matrix: same result or same failure), and encode(decode(encode(x))) is byte-identical to encode(x); " +
 		"(c) unmutated documents: encode(decode(doc)) equals doc as JSON values; (c') the encoding of a value decoded earlier in the run (one retained value per shipped document) does not change when other documents are decoded in between; (d) must-reject (decided by an independent predicate over the JSON tree): crs or tileMatrices missing/null/of the wrong JSON type, tileMatrices empty or holding a non-object, a required tile matrix field (id, scaleDenominator, cellSize, pointOfOrigin, tileWidth, tileHeight, matrixWidth, matrixHeight) missing or of the wrong JSON type, " +
 		"pointOfOrigin not two numbers, a size field (sizes, cellSize, scaleDenominator) <= 0, id not an integer string => decoding returns an error. Other mutants may go either way. Non-trivial: >= 1 mutation and (still decodes, or falls in a must-reject class). Distinct by (base, mutations).",
-	Assumptions: []string{"numbers are confined to |v| <= 2^53", "equality of decoded values is reflect.DeepEqual"}}
+	Assumptions: []string{"numbers are confined to |v| <= 2^53", "equality of decoded values: structural, nil and empty lists identified, plus indistinguishable through MatrixBoundingBox/FromNative"}}
 
 var (
 	docsOnce  sync.Once
@@ -428,6 +429,14 @@ func tooBig(v any) bool {
 func oracleC16(c DocCase) (o report.Outcome) {
 	b := buildDoc(c)
 	var doc any
+	if !utf8.Valid(b) {
+		// not a JSON text at all (RFC 8259: UTF-8); only the no-panic clause applies
+		if _, _, pan := decodeTMS(b); pan != nil {
+			o.Failf([]string{"panic"}, "decoding panicked on %.300q: %v", b, pan)
+		}
+		o.Label("not valid UTF-8")
+		return o
+	}
 	if err := json.Unmarshal(b, &doc); err != nil {
 		// not JSON at all (fuzz): only the no-panic clause applies
 		_, err2, pan := decodeTMS(b)
@@ -480,8 +489,12 @@ func oracleC16(c DocCase) (o report.Outcome) {
 		o.Failf([]string{"redecode"}, "decoding the encoded document failed: err %v panic %v; mutations %s of %s; encoded %.600s", err, pan, mustJSON(c.Muts), c.Base, e1)
 		return o
 	}
-	if !reflect.DeepEqual(x, x2) {
-		o.Failf([]string{"roundtrip-value"}, "decode(encode(x)) differs from x; mutations %s of %s; encoded %.600s", mustJSON(c.Muts), c.Base, e1)
+	if why := semanticDiff(reflect.ValueOf(x), reflect.ValueOf(x2), "x"); why != "" {
+		o.Failf([]string{"roundtrip-value"}, "decode(encode(x)) differs from x at %s; mutations %s of %s; encoded %.600s", why, mustJSON(c.Muts), c.Base, e1)
+		return o
+	}
+	if why := behaviourDiff(x, x2); why != "" {
+		o.Failf([]string{"roundtrip-behaviour"}, "decode(encode(x)) does not behave like x: %s; mutations %s of %s; encoded %.600s", why, mustJSON(c.Muts), c.Base, e1)
 		return o
 	}
 	e2, err, pan := encodeTMS(x2)
@@ -534,6 +547,112 @@ func checkRetained(justUsed string) string {
 		}
 	}
 	return why
+}
+
+// semanticDiff compares two decoded values: like reflect.DeepEqual, except that a nil and an empty slice or map are the same
+// value (a representation detail of the decoder: "keywords": [] and no keywords). It returns the path of the first difference.
+func semanticDiff(a, b reflect.Value, path string) string {
+	if a.IsValid() != b.IsValid() {
+		return path + " (one side absent)"
+	}
+	if !a.IsValid() {
+		return ""
+	}
+	if a.Type() != b.Type() {
+		return fmt.Sprintf("%s (types %v and %v)", path, a.Type(), b.Type())
+	}
+	switch a.Kind() {
+	case reflect.Ptr, reflect.Interface:
+		if a.IsNil() || b.IsNil() {
+			if a.IsNil() != b.IsNil() {
+				return path + " (nil on one side)"
+			}
+			return ""
+		}
+		return semanticDiff(a.Elem(), b.Elem(), path)
+	case reflect.Struct:
+		for i := 0; i < a.NumField(); i++ {
+			if d := semanticDiff(a.Field(i), b.Field(i), path+"."+a.Type().Field(i).Name); d != "" {
+				return d
+			}
+		}
+		return ""
+	case reflect.Slice, reflect.Array:
+		if a.Len() != b.Len() {
+			return fmt.Sprintf("%s (lengths %d and %d)", path, a.Len(), b.Len())
+		}
+		for i := 0; i < a.Len(); i++ {
+			if d := semanticDiff(a.Index(i), b.Index(i), fmt.Sprintf("%s[%d]", path, i)); d != "" {
+				return d
+			}
+		}
+		return ""
+	case reflect.Map:
+		if a.Len() != b.Len() {
+			return fmt.Sprintf("%s (sizes %d and %d)", path, a.Len(), b.Len())
+		}
+		for _, k := range a.MapKeys() {
+			bv := b.MapIndex(k)
+			if !bv.IsValid() {
+				return fmt.Sprintf("%s[%v] (missing on one side)", path, k)
+			}
+			if d := semanticDiff(a.MapIndex(k), bv, fmt.Sprintf("%s[%v]", path, k)); d != "" {
+				return d
+			}
+		}
+		return ""
+	case reflect.String:
+		if a.String() != b.String() {
+			return fmt.Sprintf("%s (%q and %q)", path, a.String(), b.String())
+		}
+	case reflect.Bool:
+		if a.Bool() != b.Bool() {
+			return path
+		}
+	case reflect.Int, reflect.Int8, reflect.Int16, reflect.Int32, reflect.Int64:
+		if a.Int() != b.Int() {
+			return fmt.Sprintf("%s (%d and %d)", path, a.Int(), b.Int())
+		}
+	case reflect.Uint, reflect.Uint8, reflect.Uint16, reflect.Uint32, reflect.Uint64:
+		if a.Uint() != b.Uint() {
+			return fmt.Sprintf("%s (%d and %d)", path, a.Uint(), b.Uint())
+		}
+	case reflect.Float32, reflect.Float64:
+		if a.Float() != b.Float() && !(a.Float() != a.Float() && b.Float() != b.Float()) {
+			return fmt.Sprintf("%s (%v and %v)", path, a.Float(), b.Float())
+		}
+	default:
+		panic("harness: semanticDiff: kind " + a.Kind().String())
+	}
+	return ""
+}
+
+// behaviourDiff: the two values must be indistinguishable through the API as well (same result, or both fail, per tile matrix).
+func behaviourDiff(x, x2 *tms20.TileMatrixSet) string {
+	call := func(t *tms20.TileMatrixSet, id int) (out string) {
+		defer func() {
+			if e := recover(); e != nil {
+				out = fmt.Sprintf("panic: %v", e)
+			}
+		}()
+		bl, tr, err := t.MatrixBoundingBox(id)
+		if err != nil {
+			return "error: " + err.Error()
+		}
+		tile, ok := t.FromNative(uint(id), [2]float64{(bl[0] + tr[0]) / 2, (bl[1] + tr[1]) / 2})
+		return fmt.Sprint(bl, tr, tile, ok)
+	}
+	ids := make([]int, 0, len(x.TileMatrices))
+	for id := range x.TileMatrices {
+		ids = append(ids, id)
+	}
+	sort.Ints(ids)
+	for _, id := range ids {
+		if a, b := call(x, id), call(x2, id); a != b {
+			return fmt.Sprintf("tile matrix %d: bounding box / tile under its centre: %s versus %s", id, a, b)
+		}
+	}
+	return ""
 }
 
 func jsonDiff(p string, a, b any) string {
